@@ -266,7 +266,8 @@ afterwards):
   (it is in the CA's state under the sender's name afterwards), with resources inside the
   sender's entitlement and inside the class;
 * **revoke**: the reply confirms the key of the request; either the class is unknown and nothing
-  was done (beyond un-suspending the sender), or the key is one the sender has in use, or (since
+  was done (beyond un-suspending the sender), or the key is one the sender has in use IN THE CLASS
+  THE REQUEST NAMES (since fix 239f0a59; a key in use in another class is not answered), or (since
   fix 7be8c4c6) it is one the sender HAD in use and this CA revoked itself (marked revoked before
   the request, or dropped by the un-suspension of this very request) – then nothing is done
   either.  In every case the key is the sender's own. -/
@@ -290,7 +291,8 @@ theorem acts_for_sender_by_kind (decode : Bytes → Option (Signed Msg)) (ca : C
       | .revoke cls key =>
         m.body.payload = .revokeResponse cls key ∧
           ((lookup ca.classes cls = none ∧ (c.suspended = false → (rfc6492 decode ca bytes).1 = ca)) ∨
-            c.inUse.any (·.1 == key) = true ∨
+            c.inUse.any (fun ku => ku.1 == key && ku.2 == cls) = true ∨
+            c.inUse.any (·.1 == key) = true ∧ c.suspended = true ∨
             (c.revoked.contains key = true ∧ (c.suspended = false → (rfc6492 decode ca bytes).1 = ca)))
       | _ => False := by
   have g := rfc6492_gate decode ca bytes
@@ -347,10 +349,17 @@ theorem acts_for_sender_by_kind (decode : Bytes → Option (Signed Msg)) (ca : C
           · right; left
             obtain ⟨ku, hku, hk⟩ := List.any_eq_true.mp b
             exact List.any_eq_true.mpr ⟨ku, hin ku hku, hk⟩
-          · right
-            rcases hrevk key (List.contains_iff_mem.mp a) with hk | ⟨ku, hku, hk⟩
-            · right; exact ⟨List.contains_iff_mem.mpr hk, fun hx => by rw [b]; exact (hns hx).1⟩
-            · left; exact List.any_eq_true.mpr ⟨ku, hku, by simp [hk]⟩
+          · right; right
+            cases hs : c.suspended with
+            | false =>
+              obtain ⟨hX, hcc⟩ := hns hs
+              right
+              exact ⟨by rw [← hcc]; exact a, fun _ => by rw [b]; exact hX⟩
+            | true =>
+              rcases hrevk key (List.contains_iff_mem.mp a) with hk | ⟨ku, hku, hk⟩
+              · right; exact ⟨List.contains_iff_mem.mpr hk, fun hx => by cases hx⟩
+              · -- the key was dropped by the un-suspension of this very request
+                left; exact ⟨List.any_eq_true.mpr ⟨ku, hku, by simp [hk]⟩, rfl⟩
         | listResponse x => rw [hpl] at hrep; exact hrep
         | issueResponse x y z => rw [hpl] at hrep; exact hrep
         | revokeResponse x y => rw [hpl] at hrep; exact hrep
